@@ -111,7 +111,7 @@ def main():
         ],
         "checks": checks,
         "not_applicable": na,
-        "notes": "All checks rebuild from /repo's working tree (cargo path dependency / [lib] path). Exit 2 = machinery failure. Known findings: /verif/known_findings.json.",
+        "notes": "All checks rebuild from /repo's working tree (cargo path dependency / [lib] path). Exit 2 = machinery failure. Known findings: /verif/known_findings.json. The level texts name the core box of each check; the boxes as built (with every later addition) are in DESIGN.md sections 10.3 and 10.5 and in the `rule` field of each evidence file, which the check writes itself.",
     }
     json.dump(m, open("/verif/MANIFEST.json", "w"), indent=1)
     print("checks:", len(checks), "not_applicable:", len(na))
